@@ -98,6 +98,31 @@ def h_int(ctx, lo_letter=40, hi_letter=119):
     ctx.event('int-decoded')
 
 
+def h_twins(ctx, lo=1, hi=10):
+    """two parameters with numerically equal bounds but different declared types, decoded from the same gene, in both declaration
+    orders: each value has its own declared type and does not depend on what else is declared (or was decoded before)"""
+    import jesse.helpers as jh
+    tint, tfloat = _types()
+    a = {'name': 'a', 'type': tint, 'min': int(lo), 'max': int(hi), 'default': int(lo)}
+    b = {'name': 'b', 'type': tfloat, 'min': float(lo), 'max': float(hi), 'default': float(lo)}
+    g = _gene(ctx, 'g')
+    o = _ord(g)
+    res = []
+    for decl in ([a, b], [b, a], [b], [a]):
+        res.append(jh.dna_to_hp(decl, [g] * len(decl)))
+    exact = (o - 40) * (hi - lo) / 79 + lo  # the statement's linear map of the alphabet onto [min, max]
+    for k, hp in enumerate(res):
+        if 'a' in hp:
+            v = hp['a']
+            ctx.prove(isinstance(v, (int, sx.SymInt)) and not isinstance(v, bool), 'C19:value-has-declared-type', {'type': 'int', 'twins': k})
+            ctx.prove(And(v - exact <= 0.5, exact - v <= 0.5), 'C19:int-value-is-the-rounded-linear-map', {'twins': k})
+        if 'b' in hp:
+            v = hp['b']
+            ctx.prove(isinstance(v, (float, np.floating, sx.SymReal)), 'C19:value-has-declared-type', {'type': 'float', 'twins': k})
+            ctx.prove(And(v - exact <= 1e-9, exact - v <= 1e-9), 'C19:float-value-is-the-linear-map', {'twins': k})
+    ctx.event('twins-decoded')
+
+
 def h_charset(ctx):
     from jesse.modes.optimize_mode.Optimize import Optimizer
     cs = inspect.signature(Optimizer.__init__).parameters['charset'].default
@@ -162,11 +187,12 @@ def h_precedence(ctx, use_defaults=True, use_dna=True, use_explicit=True):
     ctx.event('precedence-' + src)
 
 
-JOBFN = {'h_float': h_float, 'h_int': h_int, 'h_charset': h_charset, 'h_precedence': h_precedence}
+JOBFN = {'h_twins': h_twins, 'h_float': h_float, 'h_int': h_int, 'h_charset': h_charset, 'h_precedence': h_precedence}
 
 
 def _jobs(tier):
-    jobs = [Job('float_2', h_float, {'ngenes': 2}), Job('int_all_letters', h_int, {}), Job('charset', h_charset, {})]
+    jobs = [Job('float_2', h_float, {'ngenes': 2}), Job('int_all_letters', h_int, {}), Job('charset', h_charset, {}),
+            Job('twins_1_10', h_twins, {'lo': 1, 'hi': 10}), Job('twins_m20_m2', h_twins, {'lo': -20, 'hi': -2})]
     if tier != 'quick':
         jobs.append(Job('float_3', h_float, {'ngenes': 3}))
         jobs.append(Job('float_1', h_float, {'ngenes': 1}))
@@ -213,7 +239,7 @@ def signature(v):
 
 
 def make_witness(v):
-    fn = {'float': 'h_float', 'int': 'h_int', 'charset': 'h_charset', 'prec': 'h_precedence'}[v['job'].split('_')[0]]
+    fn = {'float': 'h_float', 'int': 'h_int', 'charset': 'h_charset', 'prec': 'h_precedence', 'twins': 'h_twins'}[v['job'].split('_')[0]]
     return {'fn': fn, 'kwargs': v['bounds'], 'label': v['label'], 'model': v['model'], 'info': v.get('info')}
 
 
